@@ -222,7 +222,17 @@ pub fn accepted_findings(input: &str, command: &Command, check_garbage: bool) ->
                     out.push(finding("json-roundtrip-differs", text.chars().take(300).collect()));
                 }
             }
-            Err(e) => out.push(finding("json-decode-fails", format!("{e}"))),
+            Err(e) => {
+                let msg = format!("{e}");
+                // one root cause, one class: the externally tagged tree of a command that is
+                // within the documented nesting limit is deeper than serde_json's decode limit
+                let class = if msg.contains("recursion limit") {
+                    "json-decode-fails:recursion-limit"
+                } else {
+                    "json-decode-fails"
+                };
+                out.push(finding(class, msg));
+            }
         },
         Err(e) => out.push(finding("json-encode-fails", format!("{e}"))),
     }
